@@ -48,7 +48,13 @@ var Registry = map[string]*Check{}
 
 func Register(c *Check) { Registry[c.ID] = c }
 
-const VerifDir = "/verif"
+// VerifDir is where known findings are read and evidence / replays are written (run.sh sets VERIF_DIR to its own directory).
+var VerifDir = func() string {
+	if d := os.Getenv("VERIF_DIR"); d != "" {
+		return d
+	}
+	return "/verif"
+}()
 
 type itemMsg struct {
 	Item   int   `json:"item"`
@@ -579,7 +585,7 @@ func RunCheck(chk *Check, thorough bool) int {
 		path := filepath.Join(VerifDir, "replays", fmt.Sprintf("%s-%016x.json", chk.ID, Hash(s)))
 		rf := map[string]interface{}{"property": chk.ID, "tier": tier, "signature": s, "kind": f.Kind, "choices": f.Choices,
 			"reproduced_of_5": f.Repro, "leaves_with_this_signature": a.failcnt[s], "detail": f.Detail,
-			"replay_cmd": fmt.Sprintf("/verif/run.sh replay %s", path)}
+			"replay_cmd": fmt.Sprintf("%s/run.sh replay %s", VerifDir, path)}
 		b, _ := json.MarshalIndent(rf, "", " ")
 		os.WriteFile(path, b, 0644)
 		fmt.Printf("VIOLATION property=%s replay=%s\n", chk.ID, path)
